@@ -19,7 +19,7 @@ RULE = (
     "priors, impossible outcomes (probability exactly 0), Normal and Poisson downstream likelihoods and latent "
     "(non-observed) variables depending on the discrete variable; kernel state handed in differs from the model state at "
     "kernel construction. 20 000 draws per "
-    "case through kernel.transition under vmap; two-stage rule (|z|>4.5, confirmed at 4x N). Also: penalties at overall scales 1e-6..1e3; fractional outcome grids with integer-typed current values; joint log-densities outside the float32 exp range (about -500 / +150); one-hot vector-valued variables with 2-D outcome sets. non-trivial = "
+    "case through kernel.transition under vmap; two-stage rule (|z|>4.5, confirmed at 4x N). Also: penalties at overall scales 1e-6..1e3; fractional outcome grids with integer-typed current values; joint log-densities outside the float32 exp range (about -500 / +150); one-hot vector-valued variables with 2-D outcome sets. Round 5: user-defined log_prob node; prior scale b ~ 1e-9 with all-zero coefficients. non-trivial = "
     "rank-deficient penalty or beta'K beta > 1; discrete conditional differing from the prior by > 0.1 in total "
     "variation; distinct by parameter hash"
 )
